@@ -740,6 +740,19 @@ impl FinishedSession {
             anyhow::bail!("Store is poisoned due to prior error");
         }
 
+        // A stale changeset must be rejected before its rollback delta is logged. The root
+        // cannot change below: the write guard is held.
+        {
+            let shared = nomt.shared.lock();
+            if shared.root != self.prev_root {
+                anyhow::bail!(
+                    "Changeset no longer valid (expected previous root {:?}, got {:?})",
+                    self.prev_root,
+                    shared.root
+                );
+            }
+        }
+
         if let Some(rollback_delta) = self.rollback_delta {
             // UNWRAP: if rollback_delta is `Some`, then rollback must be also `Some`.
             let rollback = nomt.store.rollback().unwrap();
